@@ -412,14 +412,19 @@ class TypeQualifier(TypeQualifierBase, metaclass=_TypeQualifier):
     def __iter__(self):
         if len(self._ref_spec) != 0 and isinstance(self._ref_spec[-1], Slice):
             offset = self._ref_spec[-1].stop
+            # keep the offsets of outer slices (slice of a slice)
+            base_offset = self._ref_spec[-1].base_offset
             prev = self._ref_spec[:-1]
         else:
             offset = 0
+            base_offset = []
             prev = self._ref_spec
 
         for nr, elem in enumerate(self._value):
             yield self.qualifier[type(elem)](
-                elem, _ref_spec=[*prev, Offset(offset + nr, [])], _root=self._root
+                elem,
+                _ref_spec=[*prev, Offset(offset + nr, [*base_offset])],
+                _root=self._root,
             )
 
     @_intrinsic
